@@ -94,7 +94,7 @@ func spec_lookup(act []int, off []int, chk []int, adef []int, gdef []int, nT int
 //@ modifies nothing
 
 //@ func (*LALR1).SplitActionAndGotoTable
-//@ props C05
+//@ props C05 C18
 //@ results actionTable, gotoTable
 //@ requires lalr != nil && lalr.G != nil
 //@ requires len(lalr.G.VnSet) >= 1
@@ -106,8 +106,8 @@ func spec_lookup(act []int, off []int, chk []int, adef []int, gdef []int, nT int
 //@ ensures [C05] forall g, s int :: 0 <= g && g < len(gotoTable) && 0 <= s && s < len(tab) ==> gotoTable[g][s] == tab[s][len(lalr.G.VtSet)+1+g]
 // the rows handed to the packer are NEW arrays, not views of the dense table: TrySplitTable overwrites them (subtracts the
 // row default, appends) and the dense table lalr.GTable is still emitted verbatim by the unpacked and TypeScript back ends
-//@ ensures [C05] forall s int :: 0 <= s && s < len(actionTable) ==> fresh(backing(actionTable[s]))
-//@ ensures [C05] forall g int :: 0 <= g && g < len(gotoTable) ==> fresh(backing(gotoTable[g]))
+//@ ensures [C05,C18] forall s int :: 0 <= s && s < len(actionTable) ==> fresh(backing(actionTable[s]))
+//@ ensures [C05,C18] forall g int :: 0 <= g && g < len(gotoTable) ==> fresh(backing(gotoTable[g]))
 //@ loop 0: invariant forall s int :: 0 <= s && s < i ==> fresh(backing(actionTable[s]))
 //@ loop 1: invariant forall g int :: 0 <= g && g < i ==> fresh(backing(gotoTable[g]))
 //@ loop 2: invariant fresh(backing(row))
@@ -478,9 +478,9 @@ func spec_walk(l *LALR1, q int, r int, k int) int { panic("spec") }
 //@ def inSet(s []int, n int, v int) = exists i int :: 0 <= i && i < n && s[i] == v
 
 //@ func Union
-//@ props C03 C02
+//@ props C03 C02 C14
 //@ results c
-//@ ensures [C03,C02] backing(c) == backing(b) || fresh(backing(c))
+//@ ensures [C03,C02,C14] backing(c) == backing(b) || fresh(backing(c))
 //@ ensures [C03] len(c) >= len(b) && (forall i int :: 0 <= i && i < len(b) ==> c[i] == b[i])
 //@ ensures [C03] forall v int :: inSet(c, len(c), v) <==> inSet(a, len(a), v) || inSet(b, len(b), v)
 //@ modifies nothing
@@ -694,3 +694,17 @@ func spec_namesSp(l *LALR1, set []int, n int) string { panic("spec") }
 //@ loop 0: end_of_body forall k int :: k != idx0 ==> has(lalr.DRSet, k) == at_head(has(lalr.DRSet, k)) && lalr.DRSet[k] == at_head(lalr.DRSet)[k]
 //@ loop 0: end_of_body isNT(lalr, idx0) ==> has(lalr.DRSet, idx0) && drSound(lalr, lalr.DRSet[idx0], lalr.trans[idx0].to) && drCompl(lalr, lalr.DRSet[idx0], lalr.trans[idx0].to, len(lalr.trans))
 //@ loop 0: end_of_body !isNT(lalr, idx0) ==> has(lalr.DRSet, idx0) == at_head(has(lalr.DRSet, idx0))
+
+// C03 / C02: reads. (p, A) reads (r, C)  iff  p --A--> r, r has a transition on C and C is a nullable nonterminal.
+//@ def readsOK(l *LALR1, x int, y int) = 0 <= y && y < len(l.trans) && l.trans[y].q == l.trans[x].to && l.trans[y].sym_or_rule&CheckMask == 0 &&
+//@     l.G.Symbols[int(l.trans[y].sym_or_rule)].IsNonTerminator && l.G.Symbols[int(l.trans[y].sym_or_rule)].IsEpsilonClosure
+
+//@ func (*LALR1).calcReadsRelation
+//@ props C03 C02
+//@ results res
+//@ requires transLite(lalr) && 0 <= transIndex && transIndex < len(lalr.trans)
+//@ ensures [C03,C02] forall n int :: 0 <= n && n < len(res) ==> res[n].x == transIndex && readsOK(lalr, transIndex, res[n].y)
+//@ ensures [C03,C02] forall y int :: {lalr.trans[y]} readsOK(lalr, transIndex, y) ==> (exists n int :: 0 <= n && n < len(res) && res[n].x == transIndex && res[n].y == y)
+//@ modifies nothing
+//@ loop 0: invariant forall n int :: 0 <= n && n < len(res) ==> res[n].x == transIndex && readsOK(lalr, transIndex, res[n].y)
+//@ loop 0: invariant forall y int :: {lalr.trans[y]} y < idx0 && readsOK(lalr, transIndex, y) ==> (exists n int :: 0 <= n && n < len(res) && res[n].x == transIndex && res[n].y == y)
